@@ -118,10 +118,15 @@ func CalcParams(sql string) (count int, offsets []int, sqlItems []string, err er
 	return
 }
 
-func escapeSQL(sql string) string {
+// escapeSQL makes a value safe inside a single-quoted literal: a quote is doubled, which every sql_mode reads
+// as one quote; a backslash is doubled only while backslash is an escape character, under NO_BACKSLASH_ESCAPES
+// it stands for itself.
+func escapeSQL(sql string, noBackslashEscapes bool) string {
 	t := make([]byte, 0, len(sql))
 	for _, elem := range []byte(sql) {
-		if elem == '\\' || elem == '\'' {
+		if elem == '\'' {
+			t = append(t, '\'')
+		} else if elem == '\\' && !noBackslashEscapes {
 			t = append(t, '\\')
 		}
 		t = append(t, elem)
@@ -155,7 +160,7 @@ func (s *Stmt) GetParamTypes() []byte {
 }
 
 // GetRewriteSQL get rewrite sql
-func (s *Stmt) GetRewriteSQL() (string, error) {
+func (s *Stmt) GetRewriteSQL(noBackslashEscapes bool) (string, error) {
 	var buffer bytes.Buffer
 	index := 0
 
@@ -163,7 +168,7 @@ func (s *Stmt) GetRewriteSQL() (string, error) {
 		if s.sqlItems[i] == "?" {
 			quote, tmp := util.ItoString(s.args[index])
 			index++
-			tmp = escapeSQL(tmp)
+			tmp = escapeSQL(tmp, noBackslashEscapes)
 			if quote {
 				tmp = "'" + tmp + "'"
 			}
@@ -240,7 +245,7 @@ func (se *SessionExecutor) handleStmtExecute(reqCtx *util.RequestContext, data [
 			return nil, err
 		}
 
-		executeSQL, err = s.GetRewriteSQL()
+		executeSQL, err = s.GetRewriteSQL(se.noBackslashEscapes())
 		if err != nil {
 			return nil, err
 		}
@@ -249,6 +254,21 @@ func (se *SessionExecutor) handleStmtExecute(reqCtx *util.RequestContext, data [
 	}
 	// execute sql using ComQuery
 	return se.handleQuery(reqCtx, executeSQL)
+}
+
+// noBackslashEscapes tells whether the session's sql_mode, which the backend connection is given before the
+// statement runs, contains NO_BACKSLASH_ESCAPES
+func (se *SessionExecutor) noBackslashEscapes() bool {
+	v, ok := se.sessionVariables.Get(mysql.SQLModeStr)
+	if !ok {
+		return false
+	}
+	variable, ok := v.(*mysql.Variable)
+	if !ok {
+		return false
+	}
+	mode, _ := variable.Get().(string)
+	return strings.Contains(strings.ToUpper(mode), "NO_BACKSLASH_ESCAPES")
 }
 
 // long data and generic args are all in s.args
